@@ -161,8 +161,22 @@ func init() {
 		Technique: "deterministic simulation: seeded operation sequences on index.Index over the simulated disk with the in-memory primary, location reference model plus structural checks of the bucket's record list after every operation",
 		Rule: "one case = 2-10 equal-length keys (bucket bytes + 2..6 bytes over an alphabet of 2-4 symbols, one or two buckets, index bits 8/12/16, 24 in thorough) and 4-40 operations Put(new key) / Update / Remove / Get(present and absent) / Flush, index file limits from 16 bytes to default, file cache 0/1; oracle: Get of a present key returns exactly its latest location, Get of an absent key returns nothing or the location of another present key; after every mutation the bucket's record list is strictly sorted, prefix-free, every stored prefix is a prefix of its own full key (fetched through its location), every present key has exactly one entry, and the list differs from the previous one only in the addressed key's entry (an insertion may lengthen at most one neighbour); " +
 			"non-trivial = at least one pair of keys shares a bucket and the first stored byte; distinct = distinct (plan hash, schedule hash)",
-		Nontrivial: func(o *RunOut) bool { return o.Probes["shared-prefix-pairs"] > 0 },
+		Nontrivial:  func(o *RunOut) bool { return o.Probes["shared-prefix-pairs"] > 0 },
 		Assumptions: []string{"seeded random search, not exhaustive enumeration of the bounded space", "no schedule or fault dimension: one task"},
 		Quick:       40, Thorough: 600, Real: []string{"store/index (incl. record lists, flush, file roll-over), store/filecache, store/primary/inmemory rebuilt from /repo's working tree"}, Simulated: commonSim,
+	}
+	Props["C13"] = &PropSpec{
+		ID: "C13", Level: "exploration",
+		Technique: "deterministic simulation: freelist ledger (expected multiset of superseded locations vs entries observed in the freelist file plus every batch captured at the hand-over rename) over seeded sequential histories with GC relocation and clean restarts, and over seeded schedules of disjoint-key writers + flusher + a GC task hammering the hand-over",
+		Rule: "sequential class (65%): generated history on the multihash primary with overwrites, removals, flushes, index/primary GC cycles (relocation thresholds 0..101, interrupted cycles), clean restarts; before/after every call and GC cycle the harness reads each key's current location through Index.Get; at every flushed checkpoint: multiset(expected freed) = multiset(freelist file) + multiset(all batches handed to GC), nothing recorded twice, no current location recorded, nothing recorded for new-key Put / rejected Put / absent Remove (locations that never were current, i.e. copies GC could not index, are exempt); concurrent class (35%): 2-4 writers on disjoint key sets, flusher, Flush client, GC client with relocation disabled (threshold 101), same checks after join + Flush, after one more cycle and after a clean restart; " +
+			"non-trivial = at least one location was superseded and at least one ledger checkpoint ran; distinct = distinct (plan hash, schedule hash)",
+		Nontrivial: func(o *RunOut) bool {
+			return o.Probes["superseded"]+o.Probes["relocated"] > 0 && o.Probes["ledger-check"] > 0
+		},
+		Assumptions: []string{
+			"clean restarts only (a crash loses the in-memory freelist pool: not promised by the statement's restart clause)",
+			"same-key concurrent writers are serialised by the store; the concurrent class uses disjoint key sets so that the expected multiset is well defined",
+		},
+		Quick: 40, Thorough: 600, Real: commonReal, Simulated: commonSim,
 	}
 }
